@@ -5,6 +5,7 @@ cd "$(dirname "$0")"
 export CARGO_NET_OFFLINE=true
 mkdir -p .cache evidence replays
 python3 tools/gen_constants.py /repo
+python3 tools/rs2v.py /repo
 # -k: a proof obligation that no longer checks (e.g. a constant of /repo that changed) is reported by the check of the
 # property it belongs to, not by the set-up
 ( cd coq && coq_makefile -f _CoqProject -o Makefile.coq && (timeout 3000 make -f Makefile.coq -j16 -k || echo 'setup: some Coq targets did not build; the checks will report them') )
